@@ -1,0 +1,41 @@
+//go:build verif
+
+// Contracts for package phase4 (comment-only; compiled to nothing).
+
+package phase4
+
+//@ func execVerticalAlign
+//@   requires g != nil && bandsDistinct(g) && sizesNonNeg(g) && params.NodeSpacing >= 0.0
+//@   modifies Node.X, Layer.W, Layer.H
+//@   ensures[spacing] forall b int, k int :: 0 <= b && b < len(g.Layers) && 0 <= k && k < len(g.Layers[b].Nodes) - 1 ==>
+//@       g.Layers[b].Nodes[k+1].X == g.Layers[b].Nodes[k].X + g.Layers[b].Nodes[k].W + params.NodeSpacing
+//@   ensures[width] forall b int :: 0 <= b && b < len(g.Layers) ==> g.Layers[b].W == rowW(g.Layers[b], params.NodeSpacing)
+//@   ensures[height] forall b int, k int :: 0 <= b && b < len(g.Layers) && 0 <= k && k < len(g.Layers[b].Nodes) ==>
+//@       g.Layers[b].H >= g.Layers[b].Nodes[k].H
+//@   ensures[nonneg] forall b int, k int :: 0 <= b && b < len(g.Layers) && 0 <= k && k < len(g.Layers[b].Nodes) ==>
+//@       g.Layers[b].Nodes[k].X >= 0.0
+//@   ensures[midpoints] forall b int, c int :: 0 <= b && b < len(g.Layers) && 0 <= c && c < len(g.Layers)
+//@       && len(g.Layers[b].Nodes) > 0 && len(g.Layers[c].Nodes) > 0 ==>
+//@       g.Layers[b].Nodes[0].X + rowW(g.Layers[b], params.NodeSpacing) / 2.0 == g.Layers[c].Nodes[0].X + rowW(g.Layers[c], params.NodeSpacing) / 2.0
+//@   ensures[leftmost] (exists b int :: 0 <= b && b < len(g.Layers) && len(g.Layers[b].Nodes) > 0) ==>
+//@       (exists b int :: 0 <= b && b < len(g.Layers) && len(g.Layers[b].Nodes) > 0 && g.Layers[b].Nodes[0].X == 0.0)
+//@   loop range(g.Layers)#1 index a
+//@     invariant forall b int :: 0 <= b && b < a ==> g.Layers[b].W == rowW(g.Layers[b], params.NodeSpacing) && g.Layers[b].W >= 0.0 && maxW >= g.Layers[b].W
+//@     invariant forall b int, k int :: 0 <= b && b < a && 0 <= k && k < len(g.Layers[b].Nodes) ==> g.Layers[b].H >= g.Layers[b].Nodes[k].H
+//@     invariant maxW >= 0.0
+//@     invariant maxW == 0.0 || (exists b int :: 0 <= b && b < a && g.Layers[b].W == maxW)
+//@   loop range(layer.Nodes)#1 index i
+//@     invariant layer.W == rowPre(layer, i, params.NodeSpacing) - ((i > 0 && i == len(layer.Nodes)) ? params.NodeSpacing : 0.0)
+//@     invariant layer.W >= 0.0
+//@     invariant forall k int :: 0 <= k && k < i ==> layer.H >= layer.Nodes[k].H
+//@     invariant forall l *Layer :: l != layer ==> l.W == loopold(l.W) && l.H == loopold(l.H)
+//@   loop range(g.Layers)#2 index c
+//@     invariant forall b int, k int :: 0 <= b && b < c && 0 <= k && k < len(g.Layers[b].Nodes) ==>
+//@       g.Layers[b].Nodes[k].X == (maxW - g.Layers[b].W) / 2.0 + rowPre(g.Layers[b], k, params.NodeSpacing)
+//@     invariant forall b int, k int :: 0 <= b && b < c && 0 <= k && k < len(g.Layers[b].Nodes) ==> g.Layers[b].Nodes[k].X >= 0.0
+//@   loop range(layer.Nodes)#2 index d
+//@     invariant pos == (maxW - layer.W) / 2.0 + rowPre(layer, d, params.NodeSpacing)
+//@     invariant pos >= 0.0
+//@     invariant forall k int :: 0 <= k && k < d ==> layer.Nodes[k].X == (maxW - layer.W) / 2.0 + rowPre(layer, k, params.NodeSpacing) && layer.Nodes[k].X >= 0.0
+//@     invariant forall b int, k int :: 0 <= b && b < c && 0 <= k && k < len(g.Layers[b].Nodes) ==>
+//@       g.Layers[b].Nodes[k].X == (maxW - g.Layers[b].W) / 2.0 + rowPre(g.Layers[b], k, params.NodeSpacing) && g.Layers[b].Nodes[k].X >= 0.0
